@@ -1,4 +1,7 @@
 import Blots.Drv.Core
+import Blots.Drv.Units
+import Blots.Drv.Print
+import Blots.Drv.NumText
 /-
   Line-protocol driver for the executable model: one request per line, one response per
   line.  A request is the inside of an S-expression list: `cmd arg …`.
@@ -7,7 +10,10 @@ import Blots.Drv.Core
 open Blots
 
 def handlers : List (List Sx → Option String) := [
-  Drv.handleCore
+  Drv.handleUnits,
+  Drv.handleNumText,
+  Drv.handleCore,
+  Drv.handlePrint
 ]
 
 def handle (req : List Sx) : String :=
